@@ -6,6 +6,7 @@ use std::time::{Duration, Instant};
 
 pub mod chan;
 pub mod reg;
+pub mod iter;
 
 #[derive(Clone, Copy, PartialEq, Debug)]
 pub enum Tier {
@@ -28,6 +29,7 @@ pub fn scenarios(prop: &str, tier: Tier) -> Option<Vec<Item>> {
     match prop {
         "C06" | "C07" | "C08" => Some(chan::scenarios(prop, tier)),
         "C01" | "C02" | "C04" | "C18" => Some(reg::scenarios(prop, tier)),
+        "C09" | "C10" | "C11" => Some(iter::scenarios(prop, tier)),
         _ => None,
     }
 }
@@ -75,6 +77,9 @@ pub fn owns(prop: &str, class: &str) -> bool {
         "C03" => &["C03", "alloc", "crash", "hung"],
         "C04" => &["C04"],
         "C18" => &["C18", "deadlock", "livelock", "hung"],
+        "C09" => &["C09", "deadlock", "hung"],
+        "C10" => &["C10"],
+        "C11" => &["C11", "deadlock", "livelock", "hung"],
         _ => return class != "engine",
     };
     own.contains(&class)
@@ -215,21 +220,34 @@ pub fn check_a(prop: &str, tier: Tier, selftest: Value) -> i32 {
                 known_hits.push(text.clone());
             }
             None => {
-                // confirm by replaying twice
+                // confirm by replaying twice in fresh processes
                 let confirmed = find_scenario(prop, &v.scenario).map(|it| {
                     let a = replay_once(&*it.run, &v.choices, 15);
                     let b = replay_once(&*it.run, &v.choices, 15);
                     match (a, b) {
-                        (Ok(a), Ok(b)) => a.0.is_some() && a == b,
+                        (Ok(a), Ok(b)) => {
+                            if a != b {
+                                eprintln!("replay results differ: {:?} / {:?}", a, b);
+                                None
+                            } else {
+                                Some(a.0.is_some())
+                            }
+                        }
                         (a, b) => {
                             eprintln!("replay results: {:?} / {:?}", a, b);
-                            false
+                            None
                         }
                     }
                 });
-                if confirmed == Some(false) {
-                    eprintln!("MACHINERY FAILURE: violation in {} does not replay deterministically: {}", v.scenario, v.message);
-                    return 2;
+                match confirmed {
+                    Some(None) => {
+                        eprintln!("MACHINERY FAILURE: two replays of the violating schedule in {} disagree with each other: {}", v.scenario, v.message);
+                        return 2;
+                    }
+                    Some(Some(false)) => {
+                        eprintln!("  note: the violating execution of {} was observed in a process that had already run other executions; a fresh process does not reproduce it with the same schedule, i.e. the code keeps state from one instance/execution to the next", v.scenario);
+                    }
+                    _ => {}
                 }
                 println!("VIOLATION property={} replay={}", prop, v.replay);
                 eprintln!("  scenario {}: {}", v.scenario, v.message);
@@ -237,6 +255,10 @@ pub fn check_a(prop: &str, tier: Tier, selftest: Value) -> i32 {
                 exit = 1;
             }
         }
+    }
+    if total.diverged > 0 && exit == 0 {
+        eprintln!("MACHINERY FAILURE: {} executions diverged from their schedule prefix (state surviving between executions or uncontrolled nondeterminism); nothing is concluded", total.diverged);
+        return 2;
     }
     if !vacuous.is_empty() && exit == 0 {
         eprintln!("MACHINERY FAILURE: nothing collided (one outcome from many executions) in {:?}", vacuous);
